@@ -207,7 +207,9 @@ func loadFindings() []*Finding {
 	sc.Buffer(make([]byte, 1<<20), 1<<20)
 	for sc.Scan() {
 		line := strings.TrimSpace(sc.Text())
-		if line == "" || strings.HasPrefix(line, "#") {
+		if line == "" || strings.HasPrefix(line, "#") || strings.HasPrefix(line, "fixed:") {
+			// "fixed: property=<id> <commit> <what failed>" lines record
+			// repaired defects; they suppress nothing.
 			continue
 		}
 		var fd Finding
